@@ -72,15 +72,21 @@ def run_family(run, fam, cases, known_classes):
     t1 = time.time()
     model = core.run_lines(dexe, fam.sub, cases)
     t2 = time.time()
+    if getattr(fam, "prejudge", None):       # optional bulk pre-computation for prop_judge (e.g. a judge sub-command)
+        fam.prejudge(cases, impl, model)
+    corr = getattr(fam, "corr", None)        # optional correspondence predicate (case, impl, model_part) -> bool
+    classify = getattr(fam, "classify", None)  # optional known-class refinement (case, impl, cls) -> cls
     st = {"cases": len(cases), "nontrivial": 0, "corr_mismatch": 0, "spec_fail": 0, "known": 0, "ok": True,
           "exhaustive": fam.exhaustive, "impl_s": round(t1 - t0, 2), "model_s": round(t2 - t1, 2)}
     seen_nt = set()
     for case, il, ml in zip(cases, impl, model):
         il = fam.normal(il if il is not None else "MISSING")
         mpart, spart, cls = fam.split(ml if ml is not None else "MISSING")
+        if classify:
+            cls = classify(case, il, cls)
         if fam.nontrivial(case, il):
             seen_nt.add(case)
-        corr_ok = (il == mpart)
+        corr_ok = corr(case, il, mpart) if corr else ((mpart is None) or (il == mpart))
         if spart is None:
             why = None
         elif fam.prop_judge:
@@ -171,6 +177,8 @@ def do_replay(run, spec, path, known_classes):
     model = core.run_lines(core.driver_exe(), fam.sub, [case])[0]
     mpart, spart, cls = fam.split(model)
     impl = fam.normal(impl)
+    if getattr(fam, "classify", None):
+        cls = fam.classify(case, impl, cls)
     print("case:           " + case)
     print("implementation: " + impl)
     print("model:          " + mpart)
@@ -181,7 +189,8 @@ def do_replay(run, spec, path, known_classes):
         if why is not None:
             bad = True
             print("property fails on this input: " + why)
-    if impl != mpart:
+    corr = getattr(fam, "corr", None)
+    if (not corr(case, impl, mpart)) if corr else (impl != mpart):
         bad = True
         print("model and implementation disagree on this input")
     if bad:
